@@ -71,7 +71,15 @@ def build_tools():
     return True, ""
 
 
-GENERATORS = ["arith", "scan"]
+def build_race_harness():
+    """The harness once more, with the Go race detector compiled in (C14 only)."""
+    with Lock("go"):
+        rc, out = sh(["go", "build", "-race", "-tags", "verif", "-o", os.path.join(BIN, "harness-race"), "."],
+                     cwd=os.path.join(ROOT, "harness"), timeout=1200)
+    return rc == 0, out
+
+
+GENERATORS = ["arith", "scan", "shared"]
 
 
 def regenerate():
@@ -168,11 +176,28 @@ def run_harness(pid, tier, seed, extra=None, timeout=3000):
     os.makedirs(out, exist_ok=True)
     for f in glob.glob(os.path.join(out, "cases_*")) + glob.glob(os.path.join(out, ".cases_*")) + glob.glob(os.path.join(out, "run.json")):
         os.remove(f)
-    cmd = [os.path.join(BIN, "harness"), "-out", out, "-seed", str(seed), "-tier", tier] + (extra or []) + [pid]
+    binary = "harness"
+    if pid == "C14":
+        ok, blog = build_race_harness()
+        if not ok:
+            return None, "harness build with -race failed:\n" + blog
+        binary = "harness-race"
+    cmd = [os.path.join(BIN, binary), "-out", out, "-seed", str(seed), "-tier", tier] + (extra or []) + [pid]
     rc, log = sh(cmd, timeout=timeout)
-    if rc != 0 or not os.path.exists(os.path.join(out, "run.json")):
+    if not os.path.exists(os.path.join(out, "run.json")) or (rc != 0 and "WARNING: DATA RACE" not in log):
         return None, log
-    return json.load(open(os.path.join(out, "run.json"))), log
+    run = json.load(open(os.path.join(out, "run.json")))
+    if "WARNING: DATA RACE" in log:
+        # every report of the race detector is a failing schedule of the property
+        reports = log.split("WARNING: DATA RACE")[1:]
+        first = "WARNING: DATA RACE" + reports[0][:6000]
+        where = "harness" if "/repo/" not in reports[0] and "ichiban/prolog" not in reports[0] else "implementation"
+        run.setdefault("oracle_failures", [])
+        run["oracle_failures"] = list(run["oracle_failures"] or []) + [{
+            "id": -1, "class": "race:data-race-reported-in-the-" + where, "input": {"text": "run of bin/harness-race " + " ".join(cmd[1:])},
+            "observed": first, "expected": "no report from the race detector", "detail": "%d report(s)" % len(reports)}]
+        run.setdefault("distribution", {})["race-reports"] = len(reports)
+    return run, log
 
 
 def eval_cases(pid, files, jobs=12, timeout=420):
@@ -375,7 +400,7 @@ def check(pid, tier, seed, spec):
             "trusted_base": spec.get("trusted", []) + ["axioms reported by Print Assumptions: " + (", ".join(axioms) if axioms else "none (Closed under the global context)")],
             "theorems": names,
             "evaluations": run.get("evaluations", 0), "distinct_nontrivial": run.get("distinct_nontrivial", 0),
-            "rule": run.get("rule", ""), "samples": run.get("samples", [])[:12],
+            "rule": run.get("rule", ""), "samples": (run.get("samples") or [])[:12],
             "distribution": run.get("distribution", {}),
             "correspondence_mismatches": len(mism), "oracle_failures": len(fails),
             "cases_dropped_out_of_fuel": len(dropped),
